@@ -720,6 +720,22 @@ std::vector<std::string> limit_images(int base, int shortLen)
         for (i128 k = 1; k <= 3; ++k) {
             for (i128 d : {i128(0), i128(1), i128(base - 1)}) { vals.insert((lim / base + sgn * k) * base + sgn * d); }
         }
+        // limit-prefix, then a digit that overflows, then ONE more small digit (added after seeded breakage
+        // c10_overflow_flag_not_sticky: the C-library parsers keep consuming digits after an overflow; the flag was
+        // recomputed per digit from the stale value and fell back to false for exactly this shape) - and the same
+        // with two and three trailing digits
+        {
+            i128 const mag = lim < 0 ? -lim : lim;
+            for (i128 D : {mag % base + 1, i128(base - 1)}) {
+                if (D >= base) { continue; }
+                for (i128 d : {i128(0), mag % base}) {
+                    i128 const v1 = ((mag / base) * base + D) * base + d;
+                    vals.insert(sgn * v1);
+                    vals.insert(sgn * (v1 * base + d));
+                    vals.insert(sgn * ((v1 * base + d) * base + d));
+                }
+            }
+        }
         for (int sh : {8, 16, 31, 32, 33, 34, 40}) {
             vals.insert(lim + sgn * (i128(1) << sh));
             vals.insert(lim + sgn * ((i128(1) << sh) - 1));
